@@ -458,8 +458,9 @@ class Surrogates(Cached):
             #  Get Fourier phases of R surrogate
             r_fft = np.fft.rfft(R, axis=1)
             r_amps = np.abs(r_fft)
-            #  (a vanishing Fourier coefficient has no phase)
-            r_phases = r_fft / np.where(r_amps == 0, 1, r_amps)
+            #  (a vanishing Fourier coefficient has no phase: use phase zero)
+            r_phases = np.where(
+                r_amps == 0, 1, r_fft / np.where(r_amps == 0, 1, r_amps))
 
             #  Transform back, replacing the actual amplitudes by the desired
             #  ones, but keeping the phases exp(iψ(i)
